@@ -56,3 +56,14 @@ CASES += [
     dict(id='c18-eq-flag-test-explicit', prop='C18', file=H, expect=None,
          old="   if (flag_set & hfUsageHidden)\n      mpUsageParams->setPrintHidden();", new="   if ((flag_set & hfUsageHidden) != 0)\n   {\n      mpUsageParams->setPrintHidden();\n   }"),
 ]
+
+TBC = 'src/library/prog_args/detail/typed_arg_base.cpp'
+TBH = 'src/celma/prog_args/detail/typed_arg_base.hpp'
+CASES += [
+    dict(id='c18-replaced-not-marked-deprecated', prop='C18', file=TBC, expect='R9',
+         old="   mIsDeprecated = true;\n   mReplacedBy = new_arg_key;", new="   mReplacedBy = new_arg_key;"),
+    dict(id='c18-hidden-getter-conditioned', prop='C18', file=TBH, expect='R9',
+         old="   return mIsHidden;", new="   return mIsHidden && !mIsMandatory;"),
+    dict(id='c18-eq-hidden-getter-parenthesised', prop='C18', file=TBH, expect=None,
+         old="   return mIsHidden;", new="   return (mIsHidden);"),
+]
